@@ -256,6 +256,11 @@ def queries(tier):
     out.append(q("select a, case when d is null then a > 1 else d = 'x' end from t3", feat=["string-expr"]))
     out.append(q("select a, d || '!' , d || d from t3", feat=["string-expr"]))
     out.append(q("select a from t3 where d like 'x%' or d like '_'", feat=["string-expr"]))
+    # patterns that match the empty string (the raw value under a NULL string), alone and under AND / OR / as a join condition
+    out.append(q("select a from t3 where d like '%'", feat=["string-expr"]))
+    out.append(q("select a, d like '%' or a > 5, d like '' from t3", feat=["string-expr"]))
+    out.append(q("select count(*) from t3 where d like '%' and a > 0", feat=["string-expr"]))
+    out.append(q("select t1.a, t3.a from t1 left join t3 on t3.d like '%' and t1.a = t3.a", feat=["string-expr", "join:left"], level=2))
     out.append(q("select a, d from t3 where d in ('x', 'z')", feat=["string-expr"]))
     out.append(q("select a, d from t3 where d not in ('x', 'z')", feat=["string-expr"]))
     out.append(q("select case when d = 'x' then 'is-x' else 'other' end, count(*) from t3 group by case when d = 'x' then 'is-x' else 'other' end", feat=["string-expr", "groupby-expr"]))
